@@ -408,6 +408,12 @@ var compositeSafe = []string{"x", "ab", "a b", "/", "a/b", "ü", "€", "\xff", 
 
 // instantiateComposite fills a composite segment with separator-free values (as sent and after decoding).
 func instantiateComposite(t *rapid.T, s seg) string {
+	// "{name}<literal>": the value may itself contain the literal (reports/q1.json.json)
+	if len(s.Parts) == 2 && s.Parts[0].Name != "" && s.Parts[1].Name == "" && rapid.IntRange(0, 2).Draw(t, "cinlit") == 0 {
+		lit := s.Parts[1].Lit
+		v := rapid.SampledFrom([]string{"q1" + lit, lit, "x" + lit + ".bak", "data" + lit + "l", lit + lit}).Draw(t, "cinlitv")
+		return encodeValue(t, v) + lit
+	}
 	seps := s.seps()
 	var b strings.Builder
 	for _, p := range s.Parts {
